@@ -324,6 +324,45 @@ var specC09Scalars = Register(&Spec[ScalarsCase]{
 		if !sameUpToTrailingNewline(y.Multi, x.Multi) || !sameUpToTrailingNewline(y.Text, x.Text) {
 			return errf("round trip changed a multi-line string: wrote %q / %q as %q, read %q / %q", x.Multi, x.Text, text, y.Multi, y.Text)
 		}
+		// types are told apart by what they are, not by what they are called: two unnamed struct
+		// types (and two function-local types of one name), the one WITHOUT a Paragraph first
+		{
+			plain := struct {
+				A string
+			}{A: "1"}
+			if _, err := marshalToText(&plain); err != nil {
+				return errf("Marshal of an unnamed struct: %v", err)
+			}
+			withPara := struct {
+				control.Paragraph
+				A string
+			}{}
+			doc := "A: 1\nX-Unknown: k" + c.Req + "\nX-More: m\n"
+			if err := control.Unmarshal(&withPara, strings.NewReader(doc)); err != nil {
+				return errf("Unmarshal(%q) into an unnamed struct embedding Paragraph: %v", doc, err)
+			}
+			wtext, err := marshalToText(&withPara)
+			if wp, perr := paraOfText(wtext); err != nil || perr != nil || wp.Values["X-Unknown"] != "k"+c.Req || wp.Values["X-More"] != "m" || wp.Values["A"] != "1" {
+				return errf("an unnamed struct type embedding Paragraph, marshalled after an unnamed struct type without one, read %q and writes %q (err %v)", doc, wtext, err)
+			}
+			type local struct{ B string }
+			if _, err := marshalToText(&local{B: "2"}); err != nil {
+				return errf("Marshal of a function-local struct: %v", err)
+			}
+			if t2, err := func() (string, error) {
+				type local struct {
+					control.Paragraph
+					B string
+				}
+				var v local
+				if err := control.Unmarshal(&v, strings.NewReader("B: 2\nX-Kept: yes\n")); err != nil {
+					return "", err
+				}
+				return marshalToText(&v)
+			}(); err != nil || !strings.Contains(t2, "X-Kept: yes") {
+				return errf("a function-local type embedding Paragraph, marshalled after another function-local type of the same name without one, writes %q (err %v)", t2, err)
+			}
+		}
 		// one Encoder, several calls (a value, then a list, then a list of pointers): the stream holds
 		// one paragraph per value written, in order
 		{
